@@ -13,22 +13,22 @@ Lemma step_fst sess me alt nd a res :
   match res with
   | Ok (nd', a', t') => (AInv sess (set_thr a' RFst t') /\ delta me RFst a nd nd' (set_thr a' RFst t')) /\ node_frame nd nd'
   | Blocked => True
-  | Panic site => cclosed (n_pcd nd) = true /\ site = "send on closed channel"%string /\ at_pc a RFst FDo 5 = true
+  | Panic site => cclosed (n_pcd nd) = true /\ site = "send on closed channel"%string /\ at_pc a RFst FDo 6 = true
   end.
 Proof.
   intros Hinv H.
-  destruct a as [st de on sh tm hb so ib ta ha hr rd se ht fs].
+  destruct a as [st de on sh tm hb so ib ta ha hr hm ins rd se ht fs].
   destruct nd as [cx pc dn ls mp ex bu mn np nn cr en th sp pe].
-  destruct Hinv as (Hrd & Hsel & Hhb & Hfst & Hd & Htmo & Hhbok & Hlife). cbn in H.
+  destruct Hinv as (Hrd & Hsel & Hhb & Hfst & Hd & Htmo & Hhbok & Hlife & Hinst & Hrdok). cbn in H.
   destruct res as [[[nd' a'] t']| |site]; [ | exact I | ].
   - split.
     + destruct on as [|r0|]; [home_script fs Hfst | destruct r0 | home_script fs Hfst];
         [home_script fs Hfst | home_script fs Hfst | home_script fs Hfst | do_script fs Hfst | | | ];
         unfold Data in Hd; cbn in Hd; destruct Hd; discriminate.
-    + unfold node_frame. clear Hd Htmo Hhbok Hlife.
+    + unfold node_frame. clear Hd Htmo Hhbok Hlife Hinst Hrdok.
       destruct fs as [rst rfn rpc rret rit]. unfold fn_ok in Hfst; cbn in Hfst.
       destruct Hfst as [[? _]|[? [_ ?]]]; subst rfn; unfold thread_step in H; cbn in H;
-        (destruct rst; try discriminate H); do 8 (try destruct rpc as [|rpc]); cbn in H; try discriminate H;
+        (destruct rst; try discriminate H); do 9 (try destruct rpc as [|rpc]); cbn in H; try discriminate H;
         unfold ch_close, ch_send, ch_cancel, ch_recv in H; inv_ok; repeat split; intros; congruence.
   - panic_script fs Hfst.
 Qed.
